@@ -1,8 +1,194 @@
 package main
 
-import "bufio"
+import (
+	"bufio"
+	"bytes"
+	"encoding/json"
+	"errors"
+	"fmt"
+	"io"
+	"os"
+	"path"
+	"sort"
+	"syscall"
+	"time"
 
-// further subcommands (prefix sweeps, forgeries, ...) are registered here
+	"github.com/spf13/afero"
+)
+
+// further subcommands are registered here
 func extraCommand(name string, args []string, w *bufio.Writer) bool {
+	switch name {
+	case "ref":
+		var h History
+		var rd io.Reader = os.Stdin
+		if len(args) > 0 {
+			f, err := os.Open(args[0])
+			if err != nil {
+				fmt.Fprintln(os.Stderr, err)
+				os.Exit(2)
+			}
+			defer f.Close()
+			rd = f
+		}
+		if err := json.NewDecoder(rd).Decode(&h); err != nil {
+			fmt.Fprintln(os.Stderr, "bad history:", err)
+			os.Exit(2)
+		}
+		runRef(h, w)
+		return true
+	}
 	return false
+}
+
+func classifyRef(err error) string {
+	if err == nil {
+		return "ok"
+	}
+	var en syscall.Errno
+	if errors.As(err, &en) {
+		switch en {
+		case syscall.ENOENT:
+			return "notexist"
+		case syscall.EEXIST:
+			return "exist"
+		case syscall.ENOTDIR:
+			return "isfile"
+		case syscall.EISDIR:
+			return "isdir"
+		case syscall.ENOTEMPTY:
+			return "notempty"
+		case syscall.EINVAL:
+			return "invalid"
+		case syscall.EACCES, syscall.EPERM, syscall.EBADF:
+			return "perm"
+		}
+	}
+	return classify(err)
+}
+
+// runRef executes the filesystem-level calls of a history on afero's OsFs (the oracle of the
+// repository's own tests) below a scratch directory and reports outcome classes and trees.
+func runRef(h History, w *bufio.Writer) {
+	base := os.Getenv("VERIF_SCRATCH")
+	if base == "" {
+		base = os.TempDir()
+	}
+	dir, err := os.MkdirTemp(base, "stfsref-")
+	if err != nil {
+		emit(w, map[string]interface{}{"fatal": err.Error()})
+		return
+	}
+	defer os.RemoveAll(dir)
+	os.Chmod(dir, 0o777)
+	s := afero.NewBasePathFs(afero.NewOsFs(), dir)
+	r := &runner{h: h, shaBlob: map[string]int{}}
+	for _, b := range h.Blobs {
+		r.blobs = append(r.blobs, pattern(b))
+	}
+	old := syscall.Umask(0)
+	defer syscall.Umask(old)
+	for i, c := range h.Calls {
+		res := Result{I: i, Op: c.Op}
+		var cerr error
+		data := r.blob(c.Blob)
+		if c.Op != "createfile" && c.Op != "writefile" {
+			data = nil
+		}
+		res.T0 = time.Now().UnixNano()
+		switch c.Op {
+		case "initialize", "reopen", "nop":
+		case "mkdir":
+			cerr = s.Mkdir(c.Name, os.FileMode(c.Perm))
+		case "mkdirall":
+			cerr = s.MkdirAll(c.Name, os.FileMode(c.Perm))
+		case "remove":
+			cerr = s.Remove(c.Name)
+		case "removeall":
+			cerr = s.RemoveAll(c.Name)
+		case "rename":
+			cerr = s.Rename(c.Name, c.Name2)
+		case "chmod":
+			cerr = s.Chmod(c.Name, os.FileMode(c.Perm))
+		case "chown":
+			cerr = s.Chown(c.Name, c.UID, c.GID)
+		case "chtimes":
+			cerr = s.Chtimes(c.Name, time.Unix(c.Atime, 0), time.Unix(c.Mtime, 0))
+		case "createfile":
+			var f afero.File
+			f, cerr = s.Create(c.Name)
+			if cerr == nil {
+				if len(data) > 0 {
+					_, cerr = f.Write(data)
+				}
+				if e := f.Close(); cerr == nil {
+					cerr = e
+				}
+			}
+		case "writefile":
+			var f afero.File
+			f, cerr = s.OpenFile(c.Name, c.Flags, os.FileMode(c.Perm))
+			if cerr == nil {
+				if len(data) > 0 || c.Bool {
+					_, cerr = f.Write(data)
+				}
+				if e := f.Close(); cerr == nil {
+					cerr = e
+				}
+			}
+		default:
+			cerr = fmt.Errorf("unsupported in reference: %s", c.Op)
+		}
+		res.T1 = time.Now().UnixNano()
+		res.Out = classifyRef(cerr)
+		if cerr != nil {
+			res.Err = cerr.Error()
+		}
+		res.Obs = map[string]interface{}{"tree": r.refWalk(s)}
+		emit(w, res)
+	}
+}
+
+func (r *runner) refWalk(s afero.Fs) []Entry {
+	out := []Entry{}
+	var rec func(p string)
+	rec = func(p string) {
+		f, err := s.Open(p)
+		if err != nil {
+			return
+		}
+		infos, _ := f.Readdir(-1)
+		f.Close()
+		sort.Slice(infos, func(i, j int) bool { return infos[i].Name() < infos[j].Name() })
+		for _, fi := range infos {
+			cp := path.Join(p, fi.Name())
+			e := Entry{Path: cp, Size: fi.Size(), Mode: uint32(fi.Mode()), Mtime: fi.ModTime().UnixNano(), Blob: -2}
+			if st, ok := fi.Sys().(*syscall.Stat_t); ok {
+				e.UID, e.GID = int64(st.Uid), int64(st.Gid)
+			}
+			if fi.IsDir() {
+				e.Kind = "d"
+				e.Size = 0
+			} else {
+				e.Kind = "f"
+				g, err := s.Open(cp)
+				if err == nil {
+					var buf bytes.Buffer
+					io.Copy(&buf, g)
+					g.Close()
+					e.Len = buf.Len()
+					e.Pieces = r.decompose(buf.Bytes())
+				}
+			}
+			out = append(out, e)
+			if fi.IsDir() {
+				rec(cp)
+			}
+		}
+	}
+	if fi, err := s.Stat("/"); err == nil {
+		out = append(out, Entry{Path: "/", Kind: "d", Mode: uint32(fi.Mode()), Mtime: fi.ModTime().UnixNano(), Blob: -2})
+	}
+	rec("/")
+	return out
 }
